@@ -16,7 +16,7 @@ Ops:  set <k|nil> <v> <d> | move <k|nil> <d> | remove <k|nil> | tick | drain | s
           add <id> <f|s…> (AddCleanTask; the task's outcomes: f = returns an error) | tick | drain (the shutdown listener)
           fired tokens are `id:delay` (the delayTask.delay handed to `clean`)
       mode=cache (core/collection/cache.go, its wheel on a harness ticker, jitter off):
-          cset <k> <v> <expire> | cdel <k> | tick     observation: fired `k:v` tokens, then has=<keys in data>
+          cset <k> <v> <expire> | cput <k> <v> (Set: the cache's own expire= of the cfg) | cdel <k> | tick     observation: fired `k:v` tokens, then has=<keys in data>
 Obs:  sorted `k:v` tokens handed to the execute/drain callback by that operation | err=argument | err=closed |
       stopped <ticker.Stop calls> | undelivered (tick after Stop) | PANIC … | bad-op | ok | err
 -/
@@ -210,7 +210,7 @@ inductive Line where
   | call (c : Call) (upd : DS → DS)
   | arm (a : Arm)
 
-def parseLine (mode : String) (op : List String) : Option Line :=
+def parseLine (mode : String) (expire : Int) (op : List String) : Option Line :=
   if mode = "cleaner" then
     match op with
     | ["add", id, oc] => do
@@ -225,6 +225,10 @@ def parseLine (mode : String) (op : List String) : Option Line :=
     | ["cset", k, v, e] => do
       let k ← k.toNat?
       pure (.call (.setTimer (some k) (← v.toNat?) (← e.toInt?))
+        fun s => { s with present := if s.present.contains k then s.present else s.present ++ [k] })
+    | ["cput", k, v] => do
+      let k ← k.toNat?
+      pure (.call (.setTimer (some k) (← v.toNat?) expire)
         fun s => { s with present := if s.present.contains k then s.present else s.present ++ [k] })
     | ["cdel", k] => do
       let k ← k.toNat?
@@ -328,7 +332,7 @@ def runSection (r : Report) (s : Section) : Report := Id.run do
   let fuel := 1000000
   let mut maxLive := 0
   for l in s.lines do
-    match parseLine mode l.op with
+    match parseLine mode ((kvStr s.cfg "expire" "0").toInt?.getD 0) l.op with
     | none => r := r.mismatch s.idx l.idx "bad-op" (joinSp l.op)
     | some (.arm arm) =>
       r := { r with ops := r.ops + 1 }
